@@ -432,6 +432,7 @@ func main() {
 	streamBlocks(rngFor(8))
 	weightManyTxCases(rngFor(9))
 	weightCountCases(rngFor(10))
+	generatorFloor()
 
 	r.Assume = []string{
 		"SHA-256 is modelled (executable Lean version validated here against Go's), theorems are parametric in the hash function",
@@ -442,8 +443,29 @@ func main() {
 		"the retry entry paths mirror the client's hand reset of a Block object after a corrupt copy (client/network/data.go, cblk.go) in the harness; netBlockReceived itself is not driven",
 		"BlockIndex is keyed by the first 8 bytes of a BLOCK HASH: two different blocks whose hashes share those 8 bytes (about 2^64 hash evaluations on top of the proof of work to hit a given known block) cannot both be stored — the second one is refused (index-collision), which the model mirrors and a synthetic index state exercises; such a pair is not constructed from real blocks here. The header's previous-block FIELD, by contrast, is free data: it is compared as a whole (fix 533896f3), modelled, proved (precheck_sound) and generated (parent-prefix-only)",
 	}
-	r.Finish("corpus of compact-target / height / locktime / merkle edge values named in the property's quantifier, then generators: compact encodings (all sizes 0..255 x mantissa edges, negative, zero, overflowing), big ints of every byte length incl. negative, hashes at target-1/target/target+1, in-memory block trees of 1..4100 nodes for mainnet/testnet3/testnet4 with timespans below T/4, inside, above 4T and min-difficulty runs, MTP windows of 1..15 nodes with ties, BIP34 heights across every byte-length boundary, merkle leaf lists of 1..40 with duplicated pairs/tails (CVE-2012-2459), IsFinal boundary grids, and whole blocks mined at 0x207fffff on synthetic chain states with one rule violated per case (see histogram block-mutation/*), and blocks of hundreds of 0.3..7 KB transactions (150..250 parallel hashing packs) built to weight 4,000,004 / 4,000,000 / 4,000,001 / ... and checked repeatedly on fresh objects at GOMAXPROCS 16 (histogram weight-many-run/*), blocks with a chosen NUMBER of transactions (2, 252, 253, 254, hundreds to thousands: 1- and 3-byte count prefix) built to weight 4,000,000 / 4,000,004 / 4,000,008 / 4,000,001 (histogram weight-count/*), and EVERY whole block again on the same bytes through the header-first / retry ways of building the Block object (histogram block-entry-path/*, entry-path-result/*). distinct = distinct (operation,input) pairs; every generated case reaches the function under test",
+	r.Finish("corpus of compact-target / height / locktime / merkle edge values named in the property's quantifier, then generators: compact encodings (all sizes 0..255 x mantissa edges, negative, zero, overflowing), big ints of every byte length incl. negative, hashes at target-1/target/target+1, in-memory block trees of 1..4100 nodes for mainnet/testnet3/testnet4 with timespans below T/4, inside, above 4T and min-difficulty runs, MTP windows of 1..15 nodes with ties, BIP34 heights across every byte-length boundary, merkle leaf lists of 1..40 with duplicated pairs/tails (CVE-2012-2459), IsFinal boundary grids, and whole blocks mined at 0x207fffff on synthetic chain states with one rule violated per case (see histogram block-mutation/*), and blocks of hundreds of 0.3..7 KB transactions (150..250 parallel hashing packs) built to weight 4,000,004 / 4,000,000 / 4,000,001 / ... and checked repeatedly on fresh objects at GOMAXPROCS 16 (histogram weight-many-run/*), blocks with a chosen NUMBER of transactions (2, 252, 253, 254, hundreds to thousands: 1- and 3-byte count prefix) built to weight 4,000,000 / 4,000,004 / 4,000,008 / 4,000,001 (histogram weight-count/*), and EVERY whole block again on the same bytes through the header-first / retry ways of building the Block object (histogram block-entry-path/*, entry-path-result/*); contextual rules are also violated on a parent other than the last block (block-mutation/*@side) and on chain states whose LastBlock stays behind the header tip (scenario/last-block-behind-header-tip); trusted blocks are judged for the rules that stay in force (reference-judged-trusted-block); generator floors are asserted (generator_floor/*). distinct = distinct (operation,input) pairs; every generated case reaches the function under test",
 		"each case is run through the real gocoin functions, the Lean model (oracle_c05) and an independent reference written from Bitcoin Core's rules; the property predicate (a block accepted by Chain.CheckBlock violates no rule of the reference; refused blocks leave LastBlock/BlockIndex untouched; compact round trip; required bits = Core's; median; BIP34 push = CScript<<height; mutated flag = Core's; an over-weight many-transaction block is refused on every one of the repeated runs and Block.BlockWeight equals the reference weight on every run; the verdict, Block.BlockWeight and the fields CheckBlock assigns are the same when the object is made from the header and the body attached by `bl.Raw = …` / UpdateContent, also after a refused corrupt copy and the client's reset) is evaluated on the real code, model/impl equality is the tie for the Lean theorems in Props/C05.lean")
+}
+
+// generatorFloor (audit 2, 3e): the constructed families may skip a case they cannot build, and a retry path may be skipped
+// when the corrupt copy happens to pass — fine at today's rate (0 / a handful), but a generator regression must not thin
+// the stream silently: below these floors the run fails as a broken tie.
+func generatorFloor() {
+	floor := func(name string, built, asked, minPct int) {
+		r.Extra["generator_floor/"+name] = fmt.Sprintf("%d of %d", built, asked)
+		if asked == 0 || built*100 < asked*minPct {
+			r.TieFail("generator-thin:"+name, fmt.Sprintf("only %d of %d %s cases were constructed / judged (floor %d%%): the stream no longer exercises what the manifest says", built, asked, name, minPct), map[string]interface{}{"op": "generator-floor", "family": name})
+		}
+	}
+	floor("weight", weightBuilt, weightAsked, 80)
+	floor("weight-many", weightManyBuilt, weightManyAsked, 75)
+	floor("weight-count", weightCountBuilt, weightCountAsked, 80)
+	floor("entry-paths", entryPathJudged, entryPathJudged+entryPathSkipped, 90)
+	for _, m := range []string{"commit-37", "commit-37-after", "lock-time@side", "time-mtp@side", "trusted"} {
+		if mutSeen[m] == 0 {
+			r.TieFail("generator-thin:mutation:"+m, "the block stream drew no case of mutation "+m, map[string]interface{}{"op": "generator-floor", "family": m})
+		}
+	}
 }
 
 // streamConsensus: the consensus parameters a real chain.NewChainExt installs for the three networks, against
@@ -624,6 +646,15 @@ func streamRetarget(g *vlib.Rng) {
 		}
 		cfgs = append(cfgs, cfg{nets[i%len(nets)], mb, spacings[g.Intn(len(spacings))], 2014 + g.Intn(5) + 2016*g.Intn(3)})
 	}
+	// (round-4 seed C05-r4-1 was seen by the model tie only) one testnet3 chain of two periods is always there: the first
+	// period is fast (ci%2 == 0 pattern below), so the second carries a target below the limit, and at every retarget
+	// boundary an alternative last block of the period that is a legal 20-minute-rule minimum-difficulty block is probed:
+	// Core takes that block's bits as the base on testnet3 and the last non-min-difficulty block's on testnet4 only
+	for _, n := range nets {
+		if n.testnet && !n.testnet4 {
+			cfgs = append([]cfg{{n, 0x1d00ffff, 100, 4034}}, cfgs[:len(cfgs)-1]...)
+		}
+	}
 	for ci, c := range cfgs {
 		t := newTree()
 		ch := newChain(c.net, c.maxBits)
@@ -654,6 +685,14 @@ func streamRetarget(g *vlib.Rng) {
 				if c.net.testnet {
 					checkGnwr("grown-gap-edge", ch, t, c.net, tip, tip.Timestamp()+1200, valid)
 					checkGnwr("grown-gap-edge", ch, t, c.net, tip, tip.Timestamp()+1201, valid)
+				}
+				if h1%2016 == 0 && c.net.testnet && tip.Parent != nil {
+					// the last block of the period is a minimum-difficulty block (20-minute rule)
+					alt := t.add(tip.Parent, tip.Height, tip.Parent.Timestamp()+1201+uint32(g.Intn(600)), c.maxBits)
+					if tip.Parent.Bits() != c.maxBits {
+						r.Hit("gnwr-branch/retarget-after-min-difficulty-block(period target below the limit)")
+					}
+					checkGnwr("boundary-after-min-difficulty-block", ch, t, c.net, alt, alt.Timestamp()+uint32(g.Intn(1500)), valid)
 				}
 				if h1%2016 == 0 {
 					// alternative tips at the retarget boundary: exact clamp edges
@@ -872,7 +911,8 @@ func replay(path string) {
 		var cs uint64
 		fmt.Sscan(str("wc_seed"), &cs)
 		wit, _ := doc.Replay["witness"].(bool)
-		weightCountCase(cs, int(num("transactions")), int(num("target_weight")), wit)
+		tr, _ := doc.Replay["trusted"].(bool)
+		weightCountCase(cs, int(num("transactions")), int(num("target_weight")), wit, tr)
 	default:
 		// gnwr / mtp cases and proof-level violations are reproduced by re-running the stream with the same seed
 		// tree-based streams are reproduced by re-running that stream with the recorded seed
